@@ -41,7 +41,9 @@ func c02Shapes() []cargen.Shape {
 			case 0:
 				b.Entries = [][]cargen.TxShape{{{Accounts: []int{0}}, {Accounts: []int{1}, Vote: true}}}
 			case 1:
-				b.Entries = [][]cargen.TxShape{{}, {{Accounts: []int{2}, Failed: true}}, {{Accounts: []int{0, 1}, Meta: cargen.PayloadShape{Pad: 700, FrameSize: 256, FanOut: 2}}, {Accounts: []int{1}, BigAmounts: true}}}
+				// (the failed transaction's error: Custom(7), InvalidAccountData - an instruction error without payload - or
+				// InsufficientFundsForFee, depending on the block and the epoch)
+				b.Entries = [][]cargen.TxShape{{}, {{Accounts: []int{2}, Failed: true, FailKind: (i/4 + int(epoch)) % 3}}, {{Accounts: []int{0, 1}, Meta: cargen.PayloadShape{Pad: 700, FrameSize: 256, FanOut: 2}}, {Accounts: []int{1}, BigAmounts: true}}}
 			case 2:
 				b.Entries = [][]cargen.TxShape{{{Accounts: []int{1}, TxPad: 200, Meta: cargen.PayloadShape{Pad: 1500, FrameSize: 300, FanOut: 3, Checksum: "fnv"}},
 					// transaction bytes AND metadata in linked frames (the first data frame still holds the signature)
